@@ -49,6 +49,24 @@ def delta(v, field):
     return None
 
 
+def check_new(ctx, rep, rule='M-size'):
+    """a new tree is empty: size 0, no root"""
+    b, ps = rep.explore(ctx, T + 'new', rule)
+    if b is None:
+        return
+    ok = bool(ps)
+    found = ''
+    for p in ps:
+        r = strip_upd(p.ret) if p.ret else ('c', 0)
+        d = dict(zip(r[3], r[4])) if r[0] == 'agg' and r[3] else {}
+        sz = strip_upd(d.get('size', ('c', '?')))
+        root = show(noepoch(d.get('root', ('c', '?'))))
+        found = 'size=%s root=%s' % (show(sz), root[:50])
+        ok = ok and sym.is_const(sz) and sz[1] == 0 and 'None' in root and 'Some' not in root
+    rep.ob(rule, 'new-is-empty', ok, 'SplayTree::new must start with size 0 and no root; found %s' % found, loc=b.loc(b.j['line_lo']),
+           reason='table-row')
+
+
 def check_size(ctx, rep, rule='M-size'):
     spec = [
         (T + 'insert', 'size', {'None': [+1], 'Some': []}),
@@ -309,6 +327,54 @@ def check_direction(ctx, rep, rule='M-direction'):
             seen.add((o, ok))
             rep.ob(rule, 'splay:%s' % ORD.get(o), ok, 'splay(): on %s the first child detached must be %s, is %s' % (ORD.get(o), exp, first),
                    loc=b.loc(b.j['line_lo']), reason='table-row')
+
+
+def check_comparator_calls(ctx, rep, rule='M-direction'):
+    """every call of the comparator in the tree is comparator(query key, &node.key), in this order (the arms of every match on the
+    result are written for that convention), and the root-level decision of insert / remove is taken after splay(key, root)"""
+    f = ctx.facts()
+    n = 0
+    for fn in sorted(f.bodies):
+        if not (fn.startswith(T) or fn == 'splay::tree::splay') or '{closure' in fn:
+            continue
+        b = f.bodies[fn]
+        if not any(callee_name(t).endswith('Fn::call') for _, t in b.calls()):
+            continue
+        bb, ps = rep.explore(ctx, fn, rule, opaque=('splay::node::Node', 'splay::tree::splay'))
+        if bb is None:
+            continue
+        bad = None
+        unsplayed = None
+        for p in ps:
+            splayed = False
+            for e in p.events:
+                if e['k'] != 'call' or e.get('depth', 0) != 0:
+                    continue
+                if e['callee'] == 'splay::tree::splay':
+                    a0 = strip_upd(e['args'][0])
+                    splayed = a0[0] == 'param' or (a0[0] == 'ref' and a0[1][0][0] == 'loc' and a0[1][0][2] <= bb.arg_count)
+                if not e['callee'].endswith('Fn::call'):
+                    continue
+                n += 1
+                args = strip_upd(e['args'][1])
+                ok = False
+                if args[0] == 'agg' and len(args[4]) == 2:
+                    a0, a1 = strip_upd(args[4][0]), strip_upd(args[4][1])
+                    is_query = a0[0] == 'param' or (a0[0] == 'ref' and a0[1][0][0] == 'loc' and a0[1][1] == () and a0[1][0][2] <= bb.arg_count)
+                    ok = is_query and a1[0] == 'ref' and bool(a1[1][1]) and a1[1][1][-1] == ('f', 'key')
+                if not ok and bad is None:
+                    bad = e
+                if short(fn).split('::')[-1] in ('insert', 'remove') and not splayed and unsplayed is None:
+                    unsplayed = e
+        rep.ob(rule, 'comparator-arguments:%s' % short(fn), bad is None,
+               '%s calls the comparator with %s; every call must be comparator(query key, &node.key)'
+               % (short(fn), [show(noepoch(a))[:50] for a in strip_upd(bad['args'][1])[4]] if bad else ''),
+               loc=bb.loc(bad['line']) if bad else None, reason='table-row')
+        if short(fn).split('::')[-1] in ('insert', 'remove'):
+            rep.ob(rule, 'root-decision-after-splay:%s' % short(fn), unsplayed is None,
+                   '%s compares the key with the root without having splayed the key to the root first: the comparison says nothing about '
+                   'the rest of the tree' % short(fn), loc=bb.loc(unsplayed['line']) if unsplayed else None, reason='dominance')
+    rep.floor(rule, 'comparator calls on paths', n, 20)
 
 
 # ----------------------------------------------------------------------------------- M-mirror
